@@ -729,4 +729,43 @@ Definition migrate (m : nat) (v : pv) : pv :=
   | _, _ => v
   end.
 
+(* ---------------------------------------------------------------------------------------------
+   the public protobuf decode paths of a signal, and which of them run otlp.MigrateX afterwards
+   (as the code stands: plog/pb.go ProtoUnmarshaler.UnmarshalLogs does not, although the comment on
+   MigrateLogs says every unmarshaler MUST; plogotlp.ExportRequest.UnmarshalProto does; the JSON
+   paths — Json.of_json — do).  Same for metrics, traces and profiles. *)
+Inductive pubpath := PProtoUnmarshaler | PExportRequestProto.
+Definition path_migrates (p : pubpath) : bool :=
+  match p with PProtoUnmarshaler => false | PExportRequestProto => true end.
+Definition decode_path (p : pubpath) (m : nat) (b : bytes) : option pv :=
+  if path_migrates p then option_map (migrate m) (decode m b) else decode m b.
+
+(* no resource of the request carries the deprecated scope field (number 1000) *)
+Definition no_dep_resource (ds : list fdesc) (r : pv) : bool :=
+  match r, slot_index ds 1000 with
+  | VMsg fs, Some i => pv_eqb (nth i fs VNone) (VRep [])
+  | _, _ => true
+  end.
+Definition no_deprecated (m : nat) (v : pv) : bool :=
+  match v, find_field (mfields (msg Sc m)) 1 0 with
+  | VMsg fs, Some (i1, d1) =>
+      match fty d1, nth i1 fs VNone with
+      | TMsg mr, VRep rs => forallb (no_dep_resource (mfields (msg Sc mr))) rs
+      | _, _ => true
+      end
+  | _, _ => true
+  end.
+(* every resource of the request has one slot per field of its message *)
+Definition res_shaped (m : nat) (v : pv) : bool :=
+  match v, find_field (mfields (msg Sc m)) 1 0 with
+  | VMsg fs, Some (i1, d1) =>
+      match fty d1, nth i1 fs VNone with
+      | TMsg mr, VRep rs =>
+          (i1 <? length fs)%nat &&
+          forallb (fun r => match r with VMsg f => (length f =? length (mfields (msg Sc mr)))%nat | _ => false end) rs
+      | _, _ => true
+      end
+  | _, _ => true
+  end.
+
 End Codec.
